@@ -27,7 +27,8 @@ MCAlphabet == <<
   A(TRUE,  "A",  4, "",  "C1", "",  "LIG", "cut66"),  \*  9  hetero group
   A(FALSE, "A",  1, "",  "CB", "B", "ALA", "full"),   \* 10  atom present only under the second alt-loc label
   A(TRUE,  "B",  7, "",  "O",  "",  "HOH", "wide"),   \* 11  water whose serial number fills all five columns
-  O("ter"), O("end"), O("model"), O("endmdl"), O("blank"), O("unknown"), O("remark")
+  O("ter"), O("end"), O("model"), O("endmdl"), O("blank"), O("unknown"), O("remark"),
+  A(FALSE, "A",  5, "",  "O",  "",  "WAT", "full")    \* 19  water written as an ATOM record (as MD tools do)
 >>
 R == INSTANCE PdbReader WITH Alphabet <- MCAlphabet
 ReadLine(s) == R!ReadLine(s)
